@@ -48,9 +48,15 @@ class OperatorDict(Mapping):
             mvs = [self.algebra.multivector(name=name, keys=keys, symbolcls=self.codegen_symbolcls)
                    for name, keys in zip(string.ascii_lowercase, keys_in)]
             keys_out, func = do_codegen(self.codegen, *mvs)
-            self.algebra.numspace[func.__name__] = self.algebra.wrapper(func) if self.algebra.wrapper else func
-            self.operator_dict[keys_in] = (keys_out, func)
+            self._store(keys_in, keys_out, func)
         return self.operator_dict[keys_in]
+
+    def _store(self, keys_in, keys_out, func):
+        # Generated names encode the set but not the order of the keys: claim a unique name in the shared namespace.
+        wrapped = self.algebra.wrapper(func) if self.algebra.wrapper else func
+        while self.algebra.numspace.setdefault(func.__name__, wrapped) is not wrapped:
+            func.__name__ += '_'
+        self.operator_dict[keys_in] = (keys_out, func)
 
     def __contains__(self, keys_in: Tuple[Tuple[int]]):
         return keys_in in self.operator_dict
@@ -132,8 +138,7 @@ class UnaryOperatorDict(OperatorDict):
         if keys_in not in self.operator_dict:
             mv = self.algebra.multivector(name='a', keys=keys_in, symbolcls=self.codegen_symbolcls)
             keys_out, func = do_codegen(self.codegen, mv)
-            self.algebra.numspace[func.__name__] = self.algebra.wrapper(func) if self.algebra.wrapper else func
-            self.operator_dict[keys_in] = (keys_out, func)
+            self._store(keys_in, keys_out, func)
         return self.operator_dict[keys_in]
 
     def __call__(self, mv):
@@ -158,8 +163,7 @@ class Registry(OperatorDict):
             tapes = [TapeRecorder(algebra=self.algebra, expr=name, keys=keys)
                      for name, keys in zip(string.ascii_lowercase, keys_in)]
             keys_out, func = do_compile(self.codegen, *tapes)
-            self.algebra.numspace[func.__name__] = self.algebra.wrapper(func) if self.algebra.wrapper else func
-            self.operator_dict[keys_in] = (keys_out, func)
+            self._store(keys_in, keys_out, func)
         return self.operator_dict[keys_in]
 
     def __call__(self, *mvs):
